@@ -557,7 +557,15 @@ def _walk_necessary(ctx, rep, wk):
     sk = skip_paths(cfg, dl, st) if st else None
     if sk is None:
         raise AnalysisError("C18-PART: the folder loop of _walk_drive_items does not recurse")
-    bad = [rs for rs in sk if not any(t in idv and b == "false" for t, b in rs)]
+    def no_id(t, b):
+        # `if folder_id:` false edge, or `if not folder_id:` true edge
+        neg = False
+        while t.startswith("not "):
+            t, neg = t[4:].strip(), not neg
+        t = t[1:-1] if t.startswith("(") and t.endswith(")") else t
+        return t in idv and b == ("true" if neg else "false")
+
+    bad = [rs for rs in sk if not any(no_id(t, b) for t, b in rs if t != "exc")]
     if bad:
         why = " and ".join(f"{anorm(ast.parse(t, mode='eval').body, rename=locs) if t != 'exc' else 'exception'} is {b}" for t, b in bad[0][-2:]) or "unconditionally"
         rep.fail(Finding("C18-PART", CL, wk.qual, f"folder not entered when {why}", f"a folder of the listing reaches the next iteration without being walked ({why}); the only accepted reason is a folder without an id: every file below it is missing from the listing", line=dl.lineno))
